@@ -372,3 +372,94 @@ Definition sstep (st : sstate) (c : cmd) : sstate * answer * spec :=
                         flat_map (fun p => point_atoms (mkPoint (pt_close p) (pt_seen p) (Some (pt_seen p)))) (x_points st))))
       end
   end.
+
+(** ---- a second File object on the case path in the same process (C09) --------------------------------
+    The first session ([x_sess]) holds the shared in-memory image; the second File only has the mode and
+    compression it reports.  [y_dirty]: a named mutator of the public API (which acts outside the small
+    tree) has been accepted on a writable image since `sha0`, so the bytes of the file differ after a flush. *)
+Record sstate2 := mkS2 { y_st : sstate; y_sess2 : option (FileMode * Compression); y_dirty : bool }.
+Definition init2 : sstate2 := mkS2 init None false.
+
+Inductive cmd2 :=
+| C1 (c : cmd)
+| COpen2 (mode : FileMode) (comp : Compression) (force : bool)
+| CMutIn2 (name : string) (unlink_checked : bool)
+| CBlk2 (n : string)
+| CDump2 | CFlush2 | CClose2.
+
+Definition set_sess (st : sstate) (ss : session tree) (mutated written : bool) (fs : fsys tree) : sstate :=
+  mkS fs (Some ss) (x_h st) (x_held st) (x_snap st) (x_mutated st || mutated) (x_sha st) (x_written st || written) (x_points st).
+
+Definition primary_writable (st : sstate) : bool :=
+  match x_sess st with Some ss => negb (is_ro (s_mode _ ss)) | None => false end.
+
+Definition sstep2 (s2 : sstate2) (c : cmd2) : sstate2 * answer * spec :=
+  let st := y_st s2 in
+  match c with
+  | C1 c1 =>
+      match c1, y_sess2 s2 with
+      | CClose, Some _ => (s2, AnsErr, SameAsModel)          (* the scripts close the second File first *)
+      | _, _ =>
+          let '(st', a, sp) := sstep st c1 in
+          match c1 with
+          | CFs _ => (mkS2 st' None false, a, sp)
+          | CSha0 => (mkS2 st' (y_sess2 s2) false, a, sp)
+          | CShaQ => (mkS2 st' (y_sess2 s2) (y_dirty s2),
+                      (if y_dirty s2 then AnsOk [AStr "sha-DIFF"] else a), sp)
+          | CMutIn _ _ => (mkS2 st' (y_sess2 s2) (y_dirty s2 || primary_writable st), a, sp)
+          | _ => (mkS2 st' (y_sess2 s2) (y_dirty s2), a, sp)
+          end
+      end
+  | COpen2 mode comp force =>
+      match x_sess st, y_sess2 s2 with
+      | Some ss, None =>
+          match second_open tree ss mode comp force with
+          | Ok (m, cp) =>
+              (mkS2 st (Some (m, cp)) (y_dirty s2),
+               AnsOk ([AStr ("mode=" ++ mode_name m); AStr ("comp=" ++ comp_name cp)] ++ counts (f_tree _ (s_img _ ss))), SameAsModel)
+          | _ => (s2, AnsErr, SameAsModel)
+          end
+      | _, _ => (s2, AnsErr, SameAsModel)
+      end
+  | CMutIn2 name uc =>
+      match x_sess st, y_sess2 s2 with
+      | Some ss, Some (m, _) =>
+          let r := mutate_second tree smut Z s_apply s_cls uc ss (MNamed name) in
+          let verdict := match r with Ok _ => "OK" | Err _ => "ERR" | UB _ => "HANG" end in
+          (* writes through a File that reports a writable mode are legitimate: the specification then demands
+             nothing of the bytes *)
+          let st1 := mkS (x_fs st) (x_sess st) (x_h st) (x_held st) (x_snap st) (x_mutated st) (x_sha st)
+                         (x_written st || negb (is_ro m)) (x_points st) in
+          (mkS2 st1 (y_sess2 s2) (y_dirty s2 || match r with Ok _ => true | _ => false end),
+           AnsOk [AStr name; AStr verdict],
+           if is_ro m then Spec (AnsOk [AStr name; AStr "ERR"]) else AnyAnswer)
+      | _, _ => (s2, AnsErr, SameAsModel)
+      end
+  | CBlk2 n =>
+      match x_sess st, y_sess2 s2 with
+      | Some ss, Some (m, _) =>
+          let sp := if is_ro m then Spec AnsErr else SameAsModel in
+          match mutate_second tree smut Z s_apply s_cls true ss (MContent (TBlk n)) with
+          | Ok (ss', _) => (mkS2 (set_sess st ss' true (negb (is_ro m)) (x_fs st)) (y_sess2 s2) (y_dirty s2), AnsOk [AStr "blk2"], sp)
+          | _ => (s2, AnsErr, sp)
+          end
+      | _, _ => (s2, AnsErr, SameAsModel)
+      end
+  | CDump2 =>
+      match x_sess st, y_sess2 s2 with
+      | Some ss, Some _ => (s2, AnsOk [ATree (f_tree _ (s_img _ ss))], SameAsModel)
+      | _, _ => (s2, AnsErr, SameAsModel)
+      end
+  | CFlush2 =>
+      match x_sess st, y_sess2 s2 with
+      | Some ss, Some _ =>
+          (* H5Fflush through either id flushes the shared file *)
+          (mkS2 (set_sess st ss false false (flush tree (x_fs st) ss)) (y_sess2 s2) (y_dirty s2), AnsOk [ANum 1], SameAsModel)
+      | _, _ => (s2, AnsErr, SameAsModel)
+      end
+  | CClose2 =>
+      match y_sess2 s2 with
+      | Some _ => (mkS2 st None (y_dirty s2), AnsOk [AStr "closed"], SameAsModel)
+      | None => (s2, AnsErr, SameAsModel)
+      end
+  end.
